@@ -5,6 +5,7 @@ import (
 	"errors"
 	"fmt"
 	"log/slog"
+	"math"
 )
 
 type ByteSize int64
@@ -45,6 +46,7 @@ func Parse(s string) (ByteSize, error) {
 	num := int64(0)
 	multiplier := int64(1)
 	foundUnit := false
+	foundDigit := false
 
 	for _, r := range s {
 		if isDigit(r) {
@@ -53,7 +55,11 @@ func Parse(s string) (ByteSize, error) {
 			}
 
 			digit := int64(r - '0')
+			if num > (math.MaxInt64-digit)/10 {
+				return 0, fmt.Errorf("%w: number too large in: %s", ErrInvalidFormat, s)
+			}
 			num = num*10 + digit
+			foundDigit = true
 		} else {
 			if foundUnit {
 				return 0, fmt.Errorf("%w in: %s", ErrMultipleUnits, s)
@@ -63,11 +69,18 @@ func Parse(s string) (ByteSize, error) {
 			if !exists {
 				return 0, fmt.Errorf("%w: %c in: %s", ErrUnknownUnit, r, s)
 			}
+			if !foundDigit {
+				return 0, fmt.Errorf("%w: no digits before the unit in: %s", ErrInvalidFormat, s)
+			}
 
+			// Keep scanning: anything after the unit is an error (see the checks above).
 			multiplier = unit
 			foundUnit = true
-			break
 		}
+	}
+
+	if num > math.MaxInt64/multiplier {
+		return 0, fmt.Errorf("%w: value too large in: %s", ErrInvalidFormat, s)
 	}
 
 	return ByteSize(num * multiplier), nil
@@ -135,8 +148,30 @@ func (b ByteSize) FindLargestFittingUnit() rune {
 	return largestUnitRune
 }
 
+// Finds the largest unit that represents the size exactly, so that the string form reads back
+// to the identical value (1536 is "1536B", not "1K").
+func (b ByteSize) findLargestExactUnit() rune {
+	largestUnitSize := int64(1)
+	largestUnitRune := 'B'
+
+	for unitRune, unitSize := range unitRuneMap {
+		if int64(b) < unitSize || int64(b)%unitSize != 0 {
+			continue
+		}
+
+		if unitSize < largestUnitSize {
+			continue
+		}
+
+		largestUnitRune = unitRune
+		largestUnitSize = unitSize
+	}
+
+	return largestUnitRune
+}
+
 func (b ByteSize) String() string {
-	unitRune := b.FindLargestFittingUnit()
+	unitRune := b.findLargestExactUnit()
 	result, _ := b.ToString(unitRune)
 	return result
 }
